@@ -126,7 +126,7 @@ def handleRangeInfo : List Sexp → Sexp
       let folded := match Opt.repeatPass true (Opt.foldRule Opt.Flags.asWas optWorld) Opt.foldWalks n with
         | .ok n' => n'
         | .error _ => n
-      let a := (Opt.optimize Opt.Flags.asIs [] optWorld n).toOption.map fun t => t.toSexp.toStr
+      let a := (Opt.optimize { Opt.Flags.asIs with constRangeNoOverflow := false } [] optWorld n).toOption.map fun t => t.toSexp.toStr
       let b := (Opt.optimize { Opt.Flags.asIs with constRangeNoOverflow := true } [] optWorld n).toOption.map fun t => t.toSexp.toStr
       .list [.atom "rangeinfo", Sexp.bool (overflowRange folded), Sexp.bool (a != b)]
     | none => .list [.atom "bad-request"]
